@@ -68,9 +68,11 @@ impl<'a> TraitImpl<'a> {
     where
         F: Fn(&&'b Field<'_>) -> bool,
     {
+        // The field of a newtype is parsed whatever its options say: the body delegates to it.
+        let always_parsed = fields.is_newtype();
         fields
             .iter()
-            .filter(field_filter)
+            .filter(|f| always_parsed || field_filter(f))
             .collect_type_params_cloned(&Purpose::BoundImpl.into(), declared)
     }
 }
